@@ -38,6 +38,26 @@ pub fn symbol_with_code<A: HC>(code: u8) -> Option<A> {
     None
 }
 
+fn dna_convarr(target: &str, byval: bool, x: &SeqSlice<Dna>) -> R<String> {
+    macro_rules! go {
+        ($($n:literal)*) => {
+            match x.len() {
+                $($n => {
+                    const W: usize = ($n * 2 + 63) / 64;
+                    let arr = crate::hc::make_arr::<Dna, $n, W>(x);
+                    match target {
+                        "iupac" => Ok(show(&if byval { Seq::<Iupac>::from(arr) } else { Seq::<Iupac>::from(&arr) })),
+                        "text" => Ok(show(&if byval { Seq::<text::Dna>::from(arr) } else { Seq::<text::Dna>::from(&arr) })),
+                        _ => Err(Fail::BadOp("conv target".into())),
+                    }
+                })*
+                _ => Err(Fail::Unsup),
+            }
+        };
+    }
+    go!(1 2 3 4 5 8 10 11 12 13 15 16 17 21 31 32 33 48 63 64 65 96 128)
+}
+
 pub fn query<A: HC>(q: &str, t: &mut Toks) -> R<String> {
     Ok(match q {
         "sym" => {
@@ -207,6 +227,13 @@ pub fn special(codec: &str, q: &str, t: &mut Toks) -> Option<R<String>> {
                     "text" => eval_s::<Dna, _>(&s, &mut |x| Ok(show(&Seq::<text::Dna>::from(x))))?,
                     _ => return Err(Fail::BadOp("conv target".into())),
                 }
+            }
+            ("dna", "convarr") => {
+                // From<&SeqArray<Dna,N,W>> / From<SeqArray<Dna,N,W>> for Seq<Iupac> and Seq<text::Dna>, hand-built array
+                let target = t.next()?.to_string();
+                let byval = t.next()? == "val";
+                let s = parse_s(t)?;
+                eval_s::<Dna, _>(&s, &mut |x| dna_convarr(&target, byval, x))?
             }
             ("dna", "toamino") => {
                 let s = parse_s(t)?;
